@@ -98,6 +98,8 @@ type Path struct {
 	dirty     bool // wrote to worker-shared (init-time) memory
 
 	models  []*cachedModel
+	formatErrors     bool
+	exactSmallFloats bool // FormatFloat of integral |x| < 1000 is computed digit by digit (C16 decimal)
 	known   map[int]bool  // term id -> truth value implied syntactically by the path condition
 	KnownHits int
 	QCacheHits int
